@@ -518,21 +518,22 @@ Proof.
   [apply sort_perm|apply Permutation_sym, sort_perm].
 Qed.
 
-Lemma map_case : forall a b m1 m2,
+Lemma map_case : forall (r : val -> val -> comparison) (c : val -> val -> bool) a b m1 m2,
+  (forall x y, is_leaf x = true -> is_leaf y = true -> r x y = lrank x y) ->
   wf a = true -> wf b = true -> view_of a = WMap m1 -> view_of b = WMap m2 ->
   (forall p q, In p m1 -> In q m2 -> lrank (fst p) (fst q) = Eq ->
-     wcompat (fst p) (fst q) = true /\ (pcomp (snd p) (snd q) = true <-> prank (snd p) (snd q) = Eq)) ->
-  ((length m1 =? length m2) && mapall pcomp m2 m1 = true <->
-   lex (pairr prank) (sortk m1) (sortk m2) = Eq).
+     wcompat (fst p) (fst q) = true /\ (c (snd p) (snd q) = true <-> r (snd p) (snd q) = Eq)) ->
+  ((length m1 =? length m2) && mapall c m2 m1 = true <->
+   lex (pairr r) (sortk m1) (sortk m2) = Eq).
 Proof.
-  intros a b m1 m2 Wa Wb Va Vb HST.
+  intros r c a b m1 m2 RL Wa Wb Va Vb HST.
   destruct (wf_map a m1 Wa Va) as [K1 D1]. destruct (wf_map b m2 Wb Vb) as [K2 D2].
-  assert (KL : forall p q, In p m1 -> In q m2 -> prank (fst p) (fst q) = lrank (fst p) (fst q)).
-  { intros. apply prank_leaf; apply ckey_leaf; auto. }
+  assert (KL : forall p q, In p m1 -> In q m2 -> r (fst p) (fst q) = lrank (fst p) (fst q)).
+  { intros. apply RL; apply ckey_leaf; auto. }
   rewrite lex_eq_iff, andb_true_iff. split.
   - intros [HL HM]. apply Nat.eqb_eq in HL. unfold mapall in HM. rewrite forallb_forall in HM.
     assert (HM' : forall p, In p m1 -> exists q, In q m2 /\ lrank (fst p) (fst q) = Eq /\
-                   pcomp (snd p) (snd q) = true).
+                   c (snd p) (snd q) = true).
     { intros p Hp. specialize (HM p Hp).
       destruct (lookup_kv (fst p) m2) as [v2|] eqn:L; [|discriminate].
       destruct (lookup_in _ _ _ L) as [k' [L1 L2]]. exists (k', v2). simpl.
@@ -566,13 +567,15 @@ Proof.
       * auto.
 Qed.
 
-Theorem pcomp_iff_prank : forall a b, wf a = true -> wf b = true -> same_type a b ->
-  (pcomp a b = true <-> prank a b = Eq).
+Lemma agree_step : forall (r : val -> val -> comparison) (c : val -> val -> bool) a b,
+  (forall x y, is_leaf x = true -> is_leaf y = true -> r x y = lrank x y) ->
+  wf a = true -> wf b = true -> same_type a b ->
+  (forall x y, In x (elems a) -> In y (elems b) -> same_type x y -> (c x y = true <-> r x y = Eq)) ->
+  (pcspec c a b = true <->
+   cthen (tyrank a ?= tyrank b)%Z (cthen (vtag a ?= vtag b)%Z (psame2 r a b)) = Eq).
 Proof.
-  apply (pair_ind_wf (fun a b => same_type a b -> (pcomp a b = true <-> prank a b = Eq))).
-  intros a b Wa Wb IH ST0.
-  pose proof (wf_spec _ Wa) as [Wa0 _]. pose proof (wf_spec _ Wb) as [Wb0 _].
-  rewrite pcomp_eq, prank_tags2 by auto. unfold pcspec.
+  intros r c a b RL Wa Wb ST0 IH.
+  unfold pcspec.
   destruct (Z.compare_spec (tyrank a) (tyrank b)) as [E|E|E].
   2:{ replace (tyrank a =? tyrank b)%Z with false by (symmetry; apply Z.eqb_neq; lia).
       simpl. split; discriminate. }
@@ -596,18 +599,28 @@ Proof.
     rewrite lex_eq_iff, andb_true_iff. split.
     + intros [HL HA]. apply Nat.eqb_eq in HL.
       apply (all2_forall2 _ _ _ HL) in HA.
-      apply (Forall2_zip_in same_type (fun x y => pcomp x y = true) (fun x y => prank x y = Eq) l l0); auto.
+      apply (Forall2_zip_in same_type (fun x y => c x y = true) (fun x y => r x y = Eq) l l0); auto.
       intros x y Hx Hy Sxy. apply IH; auto; eapply view_elems_arr; eauto.
     + intros F. pose proof (Forall2_len _ _ _ F) as HL. split; [apply Nat.eqb_eq; auto|].
       apply (all2_forall2 _ _ _ HL).
-      apply (Forall2_zip_in same_type (fun x y => pcomp x y = true) (fun x y => prank x y = Eq) l l0); auto.
+      apply (Forall2_zip_in same_type (fun x y => c x y = true) (fun x y => r x y = Eq) l l0); auto.
       intros x y Hx Hy Sxy. apply IH; auto; eapply view_elems_arr; eauto.
   - (* maps *)
-    apply (map_case a b); auto.
+    apply (map_case r c a b); auto.
     intros p q Hp Hq E1. destruct (SM _ _ eq_refl eq_refl p q Hp Hq E1) as [W S2].
     split; auto. apply IH; auto.
     + apply (pair_in_elems a m p); auto.
     + apply (pair_in_elems b m0 q); auto.
+Qed.
+
+Theorem pcomp_iff_prank : forall a b, wf a = true -> wf b = true -> same_type a b ->
+  (pcomp a b = true <-> prank a b = Eq).
+Proof.
+  apply (pair_ind_wf (fun a b => same_type a b -> (pcomp a b = true <-> prank a b = Eq))).
+  intros a b Wa Wb IH ST0.
+  pose proof (wf_spec _ Wa) as [Wa0 _]. pose proof (wf_spec _ Wb) as [Wb0 _].
+  rewrite pcomp_eq, prank_tags2 by auto.
+  apply agree_step; auto. apply prank_leaf.
 Qed.
 
 Theorem compare_iff_rank : forall M a b, inW M a = true -> inW M b = true -> same_type a b ->
@@ -636,7 +649,7 @@ Proof. exists 16, (VInt 8 1), (VInt 64 1). repeat split; vm_compute; reflexivity
 Lemma wcompat_refl : forall a, wcompat a a = true.
 Proof. destruct a; simpl; auto; apply Z.eqb_refl. Qed.
 Lemma wcompat_sym : forall a b, wcompat a b = wcompat b a.
-Proof. destruct a, b; simpl; auto; apply Z.eqb_sym. Qed.
+Proof. intros a b; destruct a; destruct b; simpl; auto; apply Z.eqb_sym. Qed.
 
 Lemma single_ind_wf : forall (P : val -> Prop),
   (forall a, wf a = true -> (forall x, In x (elems a) -> P x) -> P a) ->
@@ -836,6 +849,6 @@ Corollary after_depth_panic : forall M a, inW M a = true ->
                CallCompare a a; CallRank a a] =
   [inr DepthPanic; inl DepthPanic; inr (R true); inl (R Eq)].
 Proof.
-  intros M a Ha. unfold run_calls. simpl.
+  intros M a Ha. unfold run_calls. cbn [map call_result].
   destruct (depth_panics M) as [-> ->]. rewrite compare_refl, rank_refl; auto using inW_inU.
 Qed.
